@@ -12,7 +12,7 @@ E3 = "E3 cooperative scheduler + preemption-bounded DFS (harness/vsched, harness
 CHECKS = {
     "C17": ("model_checking", E1 + " + " + E3,
             "explicit-state enumeration (state x continuation) of snapshot/continue/restore histories on the real DbImpl + exhaustive 24-cell timeline table + preemption-bounded schedule exploration (with global-state-key pruning) of restore || reader || writer || Snapshot() / RootBucket user / SnapshotInTx user / second restore",
-            "Sequential: for every reachable state A of the index scenario (depth 1 quick / 2 thorough) and every continuation transaction: Snapshot, continuation, RestoreSnapshot; the full image equals A apart from the two markers, GetSnapshotId equals the returned id, each restore listener ran once, the first GetTimelineId issues a fresh id exactly once, the restored database answers reads and accepts every operation exactly like A (reference model), StreamToWriter yields an identical copy, and after every top-level call the reload lock is free again (a leaked lock is reported instead of blocking the restore); a subset of cases continues with a second snapshot and two more restores on the same handle (older snapshot, then newer one), each with fresh id, listeners and timeline bookkeeping. Timeline bookkeeping: all 3 modes x marker x stored id x id-function outcome. Schedules: restore || reader || writer with <= 2 (thorough: 3) preemptions, and four further variants with one preemption less (+ Snapshot(), + View{RootBucket}, + View{SnapshotInTx} whose snapshot must hold exactly what that transaction saw when it began, and two overlapping restores); every transaction sees the old or the new database in full, the final image is a restored one (+writer), no deadlock, no panic, listeners once per restore.",
+            "Sequential: for every reachable state A of the index scenario (depth 1 quick / 2 thorough) and every continuation transaction: Snapshot, continuation, four snapshot streams that break off (after 0, 1, half, all but one byte: a restore that returns normally must have produced the snapshot's state, one that fails must leave the old or the new database in full), then the restore itself through RestoreSnapshot or RestoreFromReader with two chunked readers; the full image equals A apart from the two markers, GetSnapshotId equals the returned id, each restore listener ran once, the first GetTimelineId issues a fresh id exactly once, the restored database answers reads and accepts every operation exactly like A (reference model), StreamToWriter yields an identical copy, and after every top-level call the reload lock is free again (a leaked lock is reported instead of blocking the restore); a subset of cases continues with a second snapshot and two more restores on the same handle (older snapshot, then newer one), each with fresh id, listeners and timeline bookkeeping. Timeline bookkeeping: all 3 modes x marker x stored id x id-function outcome. Schedules: restore || reader || writer with <= 2 (thorough: 3) preemptions, and four further variants with one preemption less (+ Snapshot(), + View{RootBucket}, + View{SnapshotInTx} whose snapshot must hold exactly what that transaction saw when it began, and two overlapping restores); every transaction sees the old or the new database in full, the final image is a restored one (+writer), no deadlock, no panic, listeners once per restore.",
             "Scheduling points: DbImpl.reloadLock, bbolt's rwlock/metalock/mmaplock (shimmed through the overlay), tracked spawns, harness yields; between them bbolt calls are atomic. vsync.RWMutex reproduces Go's writer preference; one restore (two in one variant), one reader, one writer per schedule; a thread that blocks in code the scheduler does not control is detached (no hang) and the execution is flagged; every 25th schedule is replayed from its choice sequence and must reproduce itself.",
             "DESIGN.md §4 C17"),
     "C18": ("model_checking", E3,
@@ -22,7 +22,7 @@ CHECKS = {
             "DESIGN.md §4 C18"),
     "C07": ("fault_enumeration", E1,
             "enumeration of (base state x transaction body x failure kind x failure position x route) on the real Db.Update/Batch path with storage-write fault points in bbolt and joined goroutines",
-            "From every base state of a short kitchen-sink exploration (quick: depth <= 1 for all bodies, depth 2 for the bodies made of one delete), every single operation and all pairs (thorough: sampled triples) over a core alphabet are run with every failure kind at every position: caller error before each operation and after the last, operation rejected by the reference model (duplicate, missing target, restrict, unusable key), constraint veto for each of 6 stores x 3 change types, a failing pre-commit action alone / before / after / between succeeding ones / registering further actions / registered on the context before the call, and storage write k of N failing for EVERY k (fault points inserted into bbolt's write methods by the overlay); through Db.Update, nested Db.Update and Db.Batch; operations refused by input validation (blank id, wrong entity type, nil entity) are part of the alphabet. The failing store call and the transaction must return an error, the database must be byte-identical, and no listener, post-commit hook, commit action or tx-complete listener may run (all library goroutines are joined, no sleeps).",
+            "From every base state of a short kitchen-sink exploration (quick: depth <= 1 for all bodies, depth 2 for the bodies made of one delete), every single operation and all pairs (thorough: sampled triples) over a core alphabet are run with every failure kind at every position: caller error before each operation and after the last, operation rejected by the reference model (duplicate, missing target, restrict, unusable key), constraint veto for each of 6 stores x 3 change types, a child-store strategy refusing an update or delete that arrives through the parent (each child store), a failing pre-commit action alone / before / after / between succeeding ones / registering further actions / registered on the context before the call, and storage write k of N failing for EVERY k (fault points inserted into bbolt's write methods by the overlay); through Db.Update, nested Db.Update and Db.Batch; operations refused by input validation (blank id, wrong entity type, nil entity) are part of the alphabet. The failing store call and the transaction must return an error, the database must be byte-identical, and no listener, post-commit hook, commit action or tx-complete listener may run (all library goroutines are joined, no sleeps).",
             "Storage faults are injected at bbolt's Put/Delete/CreateBucket(IfNotExists)/DeleteBucket entry (pages/fsync are not modelled); Batch is sampled (10 ms per call); single caller.",
             "DESIGN.md §4 C07"),
     "C08": ("model_checking", E1,
@@ -32,7 +32,7 @@ CHECKS = {
             "DESIGN.md §4 C08"),
     "C09": ("model_checking", E1,
             "explicit-state BFS for soundness on every reachable healthy state + exhaustive enumeration of corruption subsets on three base states against an independent reference differ/repairer",
-            "On every reachable state of the kitchen-sink exploration (depth 3/4) - committed, and uncommitted inside the transaction that just executed the operation - check-only and fix runs must report nothing and change nothing. On three base states (person ids one a prefix of the other) ALL subsets of size <= 2 (thorough: 3) of 27 raw-bucket corruption atoms (unique: missing/dangling/wrong-target/stale; set: missing/extra/dangling id, empty key, missing key, stray key; fk: missing/extra/dangling back-reference, dangling reference nullable and not, null in non-nullable; link: one-sided either side, dangling; genuine unique conflict) are applied in an earlier transaction and in the same transaction as the fix: check-only reports every item of the reference diff and leaves the image unchanged, the fix run reaches the reference-repaired image, the re-check reports only unfixable conflicts and changes nothing. Foreign-key CONSTRAINTS (AddFkConstraint, 4 wirings) have their own pass: all subsets of {dangling reference, second dangling reference, null in the field} x earlier/same transaction.",
+            "On every reachable state of the kitchen-sink exploration (depth 3/4) - committed, and uncommitted inside the transaction that just executed the operation - check-only and fix runs must report nothing and change nothing. On three base states (person ids one a prefix of the other) ALL subsets of size <= 2 (thorough: 3) of 30 raw-bucket corruption atoms (whole fk / link buckets missing; unique: missing/dangling/wrong-target/stale; set: missing/extra/dangling id, empty key, missing key, stray key; fk: missing/extra/dangling back-reference, dangling reference nullable and not, null in non-nullable; link: one-sided either side, dangling; genuine unique conflict) are applied in an earlier transaction and in the same transaction as the fix: check-only reports every item of the reference diff and leaves the image unchanged, the fix run reaches the reference-repaired image, the re-check reports only unfixable conflicts and changes nothing. Foreign-key CONSTRAINTS (AddFkConstraint, 4 wirings) have their own pass: all subsets of {dangling reference, second dangling reference, null in the field} x earlier/same transaction.",
             "Reports are matched by the ids/values they mention; extra reports on corrupted databases are not judged; empty link buckets created by reading links and zero-length vs typed-nil null values are normalised.",
             "DESIGN.md §4 C09"),
     "C13": ("exploration", E2,
@@ -155,7 +155,7 @@ def main():
         ],
         "checks": checks,
         "not_applicable": na,
-        "notes": "Every check rebuilds the harness against /repo's working tree (run.sh). Known findings and repaired defects: known_findings.json (the known list is empty; 27 fix: commits). Seeded changes: seeded/ (106, all detected at the quick tier); behaviour-preserving refactorings: refactors/ (8, no alarm); self-test: tools/selftest.py -> selftest/results.json.",
+        "notes": "Every check rebuilds the harness against /repo's working tree (run.sh). Known findings and repaired defects: known_findings.json (the known list is empty; 27 fix: commits). Seeded changes: seeded/ (116, all detected at the quick tier); behaviour-preserving refactorings: refactors/ (8, no alarm); self-test: tools/selftest.py -> selftest/results.json.",
     }
     with open(os.path.join(ROOT, "MANIFEST.json"), "w") as f:
         json.dump(m, f, indent=1)
